@@ -21,7 +21,7 @@ REQUIRED = ["prep_checked:dominion", "prep_checked:hart", "prep_rejections_check
             "cvrs_checked:hart", "sample_numbers_mapped", "phantom_cards_sampled",
             "manifest_row_labels_not_0_to_n", "manifest_row_labels_not_0_to_n_and_no_phantom_batch",
             "second_lookup_in_same_manifest", "cvr_identifiers_with_zero_padded_card_numbers",
-            "sampled_phantom_cvrs_with_another_identifier_prefix"]
+            "sampled_phantom_cvrs_with_another_identifier_prefix", "lookups_with_repeated_sample_numbers"]
 ASSUMPTIONS = ["unique (tabulator, batch) labels per manifest", "Dominion lookup is 1-based, Hart lookup 0-based, as each "
                "vendor module documents and its test pins", "phantom CVR ids use the documented prefix 'phantom-1-'"]
 N_CASES = {"quick": 8000, "thorough": 64000}
@@ -238,6 +238,26 @@ def run_case(case, rec):
         rec.count("second_lookup_in_same_manifest")
         if not lookup(sample2):
             return
+    # a sample that names some numbers twice (draws with replacement, or two rounds concatenated): every card's recorded
+    # selection order must be a position at which its number was drawn (for a number drawn once: that position)
+    if len(sample) >= 2:
+        sample3 = list(sample[: 12])
+        for _ in range(rng.randint(1, 3)):
+            sample3.insert(rng.randrange(len(sample3) + 1), rng.choice(sample3))
+        ok, res = rec.guard(f"c17.call:{vendor}.sample_from_manifest", V.sample_from_manifest, man, sample3)
+        if not ok:
+            return
+        rec.count("lookups_with_repeated_sample_numbers")
+        so3 = res[1]
+        for snum in set(sample3):
+            tab, batch, pos, ph = enum[snum - 1 if one_based else snum]
+            cid = f"{tab}-{batch}-{pos}"
+            got = (so3.get(cid) or {}).get("selection_order")
+            where = [k for k, v in enumerate(sample3) if v == snum]
+            if got not in where:
+                rec.violation("c17.lookup", f"{vendor}:selection_order_is_not_a_position_at_which_the_number_was_drawn",
+                              {"card": cid, "recorded": got, "drawn_at": where, "sample": sample3})
+                return
 
     # ---- sample_from_cvrs -----------------------------------------------------------------------------------
     cvr_list = []
